@@ -107,17 +107,19 @@ def props_table():
 
 # ------------------------------------------------------------------ universe, dump
 class Universe:
-    def __init__(self, docsel):
+    def __init__(self, docsel, kinds=None, region_ids=None):
         import ttconv.model as m
         self.m = m
+        self.kinds = kinds or KINDS
+        region_ids = region_ids or REGION_IDS
         self.docs = [m.ContentDocument() for _ in range(NDOCS)]
         self.els = []
         self.init = []
-        for i, k in enumerate(KINDS):
+        for i, k in enumerate(self.kinds):
             d = docsel[i]
             doc = None if d is None else self.docs[d]
             if k == "Region":
-                e = m.Region(IDS[REGION_IDS[i]], doc); idt = REGION_IDS[i]
+                e = m.Region(IDS[region_ids[i]], doc); idt = region_ids[i]
             else:
                 e = getattr(m, k)(doc); idt = None
             self.els.append(e); self.init.append((k, d, idt))
@@ -143,7 +145,7 @@ class Universe:
         for i, e in enumerate(self.els):
             styles = tuple((p.__name__, classify(e.get_style(p))) for p in e.iter_styles())
             anims = tuple((a.style_property.__name__, classify(a.value)) for a in e.iter_animation_steps())
-            nodes.append((KINDS[i], self.dref(e.get_doc()), self.ref(e.parent()), self.ref(e.first_child()),
+            nodes.append((self.kinds[i], self.dref(e.get_doc()), self.ref(e.parent()), self.ref(e.first_child()),
                           self.ref(e.last_child()), self.ref(e.next_sibling()), self.ref(e.previous_sibling()),
                           self.ref(e.get_region()), e.get_begin() is not None, e.get_end() is not None,
                           self.idtag(e.get_id()), e.get_lang() != "", e.get_space() is m.WhiteSpaceHandling.PRESERVE,
@@ -415,12 +417,13 @@ def gen_history(seed, PT, pool):
     wild = rng.random() < 0.35
     nsteps = rng.randrange(1, 41)
     prev_n, prev_d = U.dump()
-    steps = []; calls = []; lengths_ok = True; fired = False; kinds_used = set()
+    steps = []; calls = []; lengths_ok = True; fired = False; kinds_used = set(); shape = dict(depth=0, ruby=0, regrefs=0, styled=0)
     for _ in range(nsteps):
         c = None
         for _try in range(20):
             c = gen_call(rng, U, PT, pool, wild)
-            if wild or not approx_trigger(U, c): break
+            if not approx_trigger(U, c): break
+            if wild and rng.random() < 0.3: break
         was_trigger = approx_trigger(U, c)
         oc = execute(U, c, PT)
         n2, d2 = U.dump()
@@ -430,10 +433,17 @@ def gen_history(seed, PT, pool):
         calls.append([x if isinstance(x, (int, str, list, type(None), bool)) else repr(x) for x in c])
         kinds_used.add((c[0], oc != 0))
         if not U.lengths_agree(): lengths_ok = False
+        for e in U.els:
+            dpt = 0; x = e
+            while x.parent() is not None and dpt < 50: x = x.parent(); dpt += 1
+            if dpt > shape["depth"]: shape["depth"] = dpt
+        shape["ruby"] = max(shape["ruby"], len(U.els[10]))
+        shape["regrefs"] = max(shape["regrefs"], sum(1 for e in U.els if e.get_region() is not None))
+        shape["styled"] = max(shape["styled"], sum(len(list(e.iter_styles())) + len(list(e.iter_animation_steps())) for e in U.els))
         if was_trigger:
             fired = True
             if rng.random() < 0.8: break
-    return U.init, steps, calls, dict(lengths_ok=lengths_ok, wild=wild, fired=fired, kinds=kinds_used, docsel=docsel)
+    return U.init, steps, calls, dict(lengths_ok=lengths_ok, wild=wild, fired=fired, kinds=kinds_used, docsel=docsel, shape=shape)
 
 
 def hist_lit(init, steps):
@@ -459,7 +469,7 @@ def worker(args):
         init, steps, calls, fl = gen_history(s, PT, pool)
         lits.append(hist_lit(init, steps))
         meta.append(dict(seed=s, nsteps=len(steps), lengths_ok=fl["lengths_ok"], wild=fl["wild"], fired=fl["fired"],
-                         kinds=sorted(f"{a}{'!' if r else ''}" for a, r in fl["kinds"]), calls=calls, docsel=fl["docsel"],
+                         kinds=sorted(f"{a}{'!' if r else ''}" for a, r in fl["kinds"]), calls=calls, docsel=fl["docsel"], shape=fl["shape"],
                          outcomes=[st[1] for st in steps]))
     txt = (HEADER + "Definition cases : list hist := [\n" + ";\n".join(lits) + "].\n"
            "Definition vs := Eval vm_compute in map eval_hist cases.\n"
@@ -483,6 +493,55 @@ def validate_cases(PT, pool):
            "Eval vm_compute in check_all (map (fun x => negb (Nat.eqb (snd x) 0) || spec_valid (fst (fst x)) (snd (fst x))) rows).\n"
            "Eval vm_compute in check_all (map (fun x => Bool.eqb (Nat.eqb (snd x) 0) (spec_valid (fst (fst x)) (snd (fst x)))) rows).\n")
     return rows, txt
+
+
+# ------------------------------------------------------------------ exhaustive short histories (a search aid, not a proof)
+X_KINDS = ["Div", "P", "Span", "Span", "Region", "Region"]
+X_REGION_IDS = {4: 1, 5: 1}
+X_DOCSEL = [0, 0, 0, None, 0, 0]
+X_CALLS = [("push_child", 0, 1), ("push_child", 1, 2), ("push_child", 2, 3), ("push_child", 3, 2), ("push_child", 2, 1),
+           ("push_child", 0, 0), ("push_child", 1, 3), ("remove", 1), ("remove", 2), ("remove", 3),
+           ("set_doc", 0, None), ("set_doc", 0, 1), ("set_doc", 1, None), ("set_doc", 2, 0), ("set_doc", 2, None), ("set_doc", 3, 0),
+           ("set_region", 1, 4), ("set_region", 1, 5), ("set_region", 2, 4), ("set_region", 1, None),
+           ("put_region", 0, 4), ("put_region", 0, 5), ("remove_region", 0, 1), ("push_children", 1, [2, 3]), ("remove_children", 1)]
+
+
+def exhaustive_sequences(depth):
+    import itertools
+    return [list(seq) for n in range(1, depth + 1) for seq in itertools.product(range(len(X_CALLS)), repeat=n)] if depth < 3 \
+        else [list(seq) for seq in itertools.product(range(len(X_CALLS)), repeat=depth)]
+
+
+def run_sequence(seq):
+    U = Universe(X_DOCSEL, X_KINDS, X_REGION_IDS)
+    prev_n, prev_d = U.dump(); steps = []; ok = True
+    for ci in seq:
+        c = X_CALLS[ci]
+        oc = execute(U, c, None)
+        n2, d2 = U.dump()
+        dn = [(i, n2[i]) for i in range(len(n2)) if n2[i] != prev_n[i]]
+        dd = [(i, d2[i]) for i in range(len(d2)) if d2[i] != prev_d[i]]
+        steps.append((c, oc, dn, dd)); prev_n, prev_d = n2, d2
+        if not U.lengths_agree(): ok = False
+    return U.init, steps, ok
+
+
+def worker_exh(args):
+    k, seqs, path = args
+    sys.path.insert(0, C.SRC)
+    lits = []; meta = []
+    for seq in seqs:
+        init, steps, ok = run_sequence(seq)
+        lits.append(hist_lit(init, steps))
+        meta.append(dict(seed=None, seq=seq, nsteps=len(steps), lengths_ok=ok, wild=True, fired=False, kinds=[],
+                         calls=[list(X_CALLS[i]) for i in seq], docsel=X_DOCSEL, shape=dict(depth=0, ruby=0, regrefs=0, styled=0),
+                         outcomes=[st[1] for st in steps]))
+    txt = (HEADER + "Definition cases : list hist := [\n" + ";\n".join(lits) + "].\n"
+           "Definition vs := Eval vm_compute in map eval_hist cases.\n"
+           "Eval vm_compute in model_ok vs.\nEval vm_compute in spec_ok vs.\nEval vm_compute in strict_ok vs.\n"
+           "Eval vm_compute in (0, fired_counts vs).\nEval vm_compute in (total_steps vs, @nil nat).\n")
+    with open(path, "w") as f: f.write(txt)
+    return k, path, meta, len(txt)
 
 
 PAIR = re.compile(r"=\s*\(\s*(\d+)\s*,\s*(\[[^\]]*\]|nil)\s*\)")
@@ -545,7 +604,13 @@ def main():
     from concurrent.futures import ProcessPoolExecutor
     with ProcessPoolExecutor(C.NCPU) as ex:
         done = list(ex.map(worker, jobs, chunksize=1))
-    run.log(f"{n_hist} histories run on ttconv.model, {sum(d[3] for d in done) // 1024} kB of case files")
+    xdepth = 2 if run.tier == "quick" else 3
+    xseqs = exhaustive_sequences(xdepth); xper = 150
+    xjobs = [(10000 + k, xseqs[k * xper:(k + 1) * xper], f"{C.GEN}/Cases_C15_x{k}.v") for k in range((len(xseqs) + xper - 1) // xper)]
+    with ProcessPoolExecutor(C.NCPU) as ex:
+        done += list(ex.map(worker_exh, xjobs, chunksize=1))
+    run.log(f"{n_hist} random histories and {len(xseqs)} exhaustive histories (all sequences of {'<= ' if xdepth < 3 else ''}{xdepth} of {len(X_CALLS)} calls on a reduced "
+            f"universe, judged after every call) run on ttconv.model, {sum(d[3] for d in done) // 1024} kB of case files")
     res = C.coqc_many([vpath] + [d[1] for d in done], 1800)
 
     broken = []
@@ -574,6 +639,11 @@ def main():
 
     def replay_of(key):
         mt = metas[key]
+        if mt["seed"] is None:
+            init, steps, _ = run_sequence(mt["seq"])
+            return dict(exhaustive_sequence=mt["calls"], universe=[f"{i}:{k}" for i, k in enumerate(X_KINDS)], initial_docs=X_DOCSEL,
+                        outcomes=mt["outcomes"], coq_explain=explain_case(hist_lit(init, steps)),
+                        how="harness/c15.py run_sequence(seq) re-runs the sequence on ttconv.model")
         PT2 = props_table()
         init, steps, calls, fl = gen_history(mt["seed"], PT2, value_pool())
         det = explain_case(hist_lit(init, steps))
@@ -625,14 +695,19 @@ def main():
         n_rejected += sum(1 for x in mt["outcomes"] if x)
         distinct.add(json.dumps(mt["calls"], default=str))
     sample = [dict(seed=mt["seed"], calls=mt["calls"][:6], outcomes=mt["outcomes"][:6]) for mt in list(metas.values())[:3]]
+    run.cov["exhaustive_histories"] = len(xseqs); run.cov["exhaustive_depth"] = xdepth
     run.cov.update(evaluations=total_steps + len(rows), distinct_nontrivial=len(distinct),
                    rule="random histories of 1-40 model API calls (75% steered towards acceptable arguments, the rest arbitrary: wrong kinds, "
                         "foreign documents, unknown regions, invalid values, parented children, self/ancestors) over 22 elements of all 13 kinds "
                         "and 2 documents; after every call the dumped object graph is compared with M's heap and judged by S inside Coq. "
                         "evaluations = calls checked + (property, value) validate pairs; distinct_nontrivial = distinct call sequences.",
-                   samples=sample, histories=len(metas), calls=total_steps, rejected_calls=n_rejected, wild_histories=n_wild,
+                   samples=sample, histories=len(metas) - len(xseqs), calls=total_steps, rejected_calls=n_rejected, wild_histories=n_wild,
                    calls_by_kind_histories=call_hist, model_code_mismatches=len(m_bad), s_failures_outside_findings=len(s_bad),
                    s_failures_including_findings=len(strict_bad), histories_per_finding=dict(zip(FINDING_IDS.values(), fired)),
+                   max_tree_depth_histogram={str(k): sum(1 for mt in metas.values() if mt["shape"]["depth"] == k) for k in range(0, 8)},
+                   histories_with_complete_ruby=sum(1 for mt in metas.values() if mt["shape"]["ruby"] >= 2),
+                   histories_with_region_references=sum(1 for mt in metas.values() if mt["shape"]["regrefs"] > 0),
+                   histories_with_stored_values=sum(1 for mt in metas.values() if mt["shape"]["styled"] > 0),
                    history_length_histogram={str(l): sum(1 for mt in metas.values() if (mt["nsteps"] - 1) // 10 == l) for l in range(4)})
     run.assumptions += ["S (Spec/ModelWF.v) reads the content model from doc/data_model.md and takes 'valid value' to be the documented type of each style property; bool counts as a number, an empty font-family tuple is accepted",
                         "the harness maps Python objects to heap literals (harness/c15.py Universe.dump, classify); text content, time values and language tags are abstracted to set/unset",
